@@ -131,6 +131,18 @@ theorem setSpecial_bodyHeld (p : P) (k v : Bytes) : (setSpecial p k v).bodyHeld 
   unfold setSpecial
   split <;> (try split) <;> (try split) <;> rfl
 
+/-- validating the framing fields does not touch the bodiless flag -/
+theorem endOfHeaders_noBody (p p0 : P) (h : endOfHeaders p = .ok p0) : p0.noBody = p.noBody := by
+  simp only [endOfHeaders, bind, Except.bind] at h
+  split at h
+  · cases h
+  · rename_i q1 hq1
+    rcases parseTE_shape _ _ hq1 with ⟨_, e⟩ | ⟨_, _, _, _, e⟩ <;>
+    rcases parseCL_shape _ _ h with ⟨_, e2⟩ | ⟨_, _, _, _, _, _, _, e2⟩ <;> subst e e2 <;> rfl
+
+theorem noBodyOverride_bodyHeld (p : P) : (noBodyOverride p).bodyHeld = p.bodyHeld := by
+  unfold noBodyOverride; split <;> rfl
+
 /-! ### (b) the body bound -/
 
 /-- the body held for the message under construction respects MaxHTTPBodySize -/
@@ -160,7 +172,7 @@ theorem byteStep_bodyHeld (g : Cfg) (p : P) (tok : Bytes) (c : UInt8) (p' : P) (
            rcases parseTE_shape _ _ hq1 with ⟨_, e⟩ | ⟨_, _, _, _, e⟩ <;>
            rcases parseCL_shape _ _ hq with ⟨_, e2⟩ | ⟨_, _, _, _, _, _, _, e2⟩ <;> subst e e2 <;> rfl
        have b := a _ _ h1
-       rcases addTrailerKeys_shape _ _ h2 with e | ⟨_, _, e⟩ <;> subst e <;> left <;> simpa using b)
+       rcases addTrailerKeys_shape _ _ h2 with e | ⟨_, _, e⟩ <;> subst e <;> left <;> simpa [noBodyOverride_bodyHeld] using b)
     | skip
 
 theorem byteStep_bodyInv (g : Cfg) (p : P) (tok : Bytes) (c : UInt8) (p' : P) (u : Upd) (evs : List Ev)
